@@ -716,6 +716,22 @@ class Exec:
 
     def call(self, callee, args, dest_ty, fr):
         prog = self.prog
+        # generic parameter P of ParsingTable/ParsingIterator bodies: substitute the concrete entry type of the enclosing call
+        if "<P as " in callee and getattr(self, "p_stack", None):
+            callee = callee.replace("<P as ", f"<{self.p_stack[-1]} as ")
+        pm = re.search(r"Parsing(?:Table|Iterator)(?:::)?<'_, E, (\w+)>", callee)
+        if pm and pm.group(1) != "P":
+            if not hasattr(self, "p_stack"):
+                self.p_stack = []
+            self.p_stack.append(pm.group(1))
+            try:
+                return self._call(callee, args, dest_ty, fr)
+            finally:
+                self.p_stack.pop()
+        return self._call(callee, args, dest_ty, fr)
+
+    def _call(self, callee, args, dest_ty, fr):
+        prog = self.prog
         norm = mir.strip_generics(callee)
         for rx, h in prog.summaries:
             if rx.search(callee) or rx.search(norm):
